@@ -144,6 +144,26 @@ def searchUnguarded (d : Ds) (qLen k ef mMax0 : Nat) : Out :=
   if qLen ≠ d.dim then .err
   else runPrims [.alloc k d.stored, .alloc ((max ef k) * mMax0) ((max ef d.stored) * mMax0)]
 
+/-! ## levels
+
+`BatchItem.level` and `PartitionChange.level` are wire fields: a client can put any 32-bit integer
+there. The apply loop hands the entry's level to `Hnsw.Insert`, whose `setLevel` runs
+`make([]hnswEdgeSet, level+1)`: a negative level panics there (or at the first `edges[0]`), a huge one
+allocates without bound — inside the raft apply loop, on every replica and on every replay. The
+handlers therefore draw the level themselves (`RandomLevel() ≥ 0`, small) for every item they
+propose, whatever the request carried. -/
+
+/-- levels `setLevel` can take -/
+def levelOk (lvl : Int) : Bool := 0 ≤ lvl && lvl ≤ 1024
+
+/-- the apply loop's `setLevel` on the entry's level -/
+def setLevelOutcome (lvl : Int) : Out := if levelOk lvl then .ok else .poison
+
+/-- the level an item is proposed with: the handler's own draw when it overwrites the field for
+every item (`draws = true`), otherwise the client's value unless that is 0 -/
+def proposedLevel (draws : Bool) (client drawn : Int) : Int :=
+  if draws then drawn else if client = 0 then drawn else client
+
 /-! ## item-level failures inside the apply loop -/
 
 /-- a well-formed single write whose index operation fails at item level (update / remove of an
